@@ -137,7 +137,7 @@ func checkC13(a *checkArgs, r *Result) error {
 		return err
 	}
 	defer dp.Close()
-	r.Rule = "valid streams of all three formats (library-written multi-block xz, multi-chunk LZMA2, classic LZMA in its three end modes, liblzma corpus, multi-stream chains) x generated Read buffer-length schedules (cyclic lists containing 0 and 1, sizes straddling block/chunk boundaries) x source fragmentations (whole, byte-wise, random short reads, data returned together with EOF); oracle: concatenated data equals the content, status EOF, never data after EOF, (0,EOF) stays. Non-trivial: schedule contains a 0 or 1 and fragmentation is not 'whole', or content >= 64 bytes; distinct by (stream, schedule, fragmentation). The Lean side of this property is the layered reader-loop model of Model/ReadLoop.lean and the lazy ring-level reader models Model/LazyDec.lean (classic), LazyDec2.lean (LZMA2), LazyXz.lean (xz), which are run on valid, truncated, bit-flipped, extended, structurally mutated streams and chains under read-length schedules: per call the count, the status (nil / EOF / error class) and all delivered bytes must equal the real reader's (theorems in Props/C13.lean)."
+	r.Rule = "valid streams of all three formats (library-written multi-block xz, multi-chunk LZMA2, classic LZMA in its three end modes, liblzma corpus, multi-stream chains) x generated Read buffer-length schedules (cyclic lists containing 0 and 1, sizes straddling block/chunk boundaries) x source fragmentations (whole, byte-wise, random short reads, data returned together with EOF); oracle: concatenated data equals the content, status EOF, never data after EOF, (0,EOF) stays. Non-trivial: schedule contains a 0 or 1 and fragmentation is not 'whole', or content >= 64 bytes; distinct by (stream, schedule, fragmentation). The Lean side of this property is the layered reader-loop model of Model/ReadLoop.lean and the lazy ring-level reader models Model/LazyDec.lean (classic), LazyDec2.lean (LZMA2), LazyXz.lean (xz), which are run on valid, truncated, bit-flipped, extended, structurally mutated streams and chains under read-length schedules: per call the count, the status (nil / EOF / error class) and all delivered bytes must equal the real reader's (theorems in Props/C13.lean). Source fragmentation on the Lean side: the access layer of Model/Src.lean (io.ReadFull, ByteReader.ReadByte, io.CopyN, the doubly limited copy of uncompressed chunks, as the Go standard library implements them) is run on fragmenting / failing sources against the real functions (bytes, status, limits per operation), and is proved insensitive to the fragmentation; that the code reaches a source only through that layer is a pinned fact regenerated from /repo (Gen/SrcReads.lean)."
 	if only := os.Getenv("VERIF_ONLY"); only != "" {
 		// development aid: run one of the lazy-reader ties alone
 		n := 60
@@ -151,6 +151,8 @@ func checkC13(a *checkArgs, r *Result) error {
 			return lazy2Tie(r, dp, rand.New(rand.NewSource(a.seed+14)), n)
 		case "lazyxz":
 			return lazyXzTie(r, dp, rand.New(rand.NewSource(a.seed+15)), n)
+		case "src":
+			return srcTie(r, dp, rand.New(rand.NewSource(a.seed+16)), 20*n)
 		}
 		return nil
 	}
@@ -300,7 +302,7 @@ func checkC13(a *checkArgs, r *Result) error {
 	if err := lazyXzTie(r, dp, rand.New(rand.NewSource(a.seed+15)), nlazy); err != nil {
 		return err
 	}
-	return nil
+	return srcTie(r, dp, rand.New(rand.NewSource(a.seed+16)), 20*nlazy)
 }
 
 func init() { checks["C13"] = checkC13 }
